@@ -90,6 +90,9 @@ func RunPlan(t *testing.T, p *plan.Plan, trace bool, emitEarly func(*EpisodeResu
 			if e.Fatal != "" && res.Fatal == "" {
 				res.Fatal = e.Fatal
 			}
+			if e.Stuck() {
+				res.Recycle = true // goroutines of this bubble can never end
+			}
 			if trace {
 				res.Trace = e.Trace()
 			}
